@@ -338,6 +338,48 @@ static void check_c16(const Spec& sp, const std::vector<Tok>& toks, int maxlen, 
     }
 }
 
+// ---- the message exec prints for a failing operation does not depend on what failed earlier in the session
+#include <fcntl.h>
+#include <unistd.h>
+static std::string eval_capturing_stderr(Instance& inst, const std::vector<std::string>& toks, const std::string& tmpfile, bool& ok) {
+    std::vector<char*> argv; for (auto& t : toks) argv.push_back(const_cast<char*>(t.c_str()));
+    fflush(stderr);
+    int saved = dup(2), fd = open(tmpfile.c_str(), O_RDWR | O_CREAT | O_TRUNC, 0600);
+    dup2(fd, 2);
+    try { ok = inst.eval(argv.size(), argv.data()); } catch (const std::exception& e) { ok = false; fprintf(stderr, "ESCAPED: %s\n", e.what()); }
+    fflush(stderr);
+    dup2(saved, 2); close(saved);
+    std::string out; char buf[512]; lseek(fd, 0, SEEK_SET); ssize_t n; while ((n = read(fd, buf, sizeof buf)) > 0) out.append(buf, size_t(n));
+    close(fd);
+    return out;
+}
+static void check_c16_messages(const std::string& tmpdir, Violations& V, Stats& st) {
+    std::string tf = tmpdir + "/stderr.txt";
+    std::vector<std::vector<std::string>> preludes = {{}, {"step3"}, {"step1", "exec:0000000080 OP_1ADD"}, {"step1", "exec:OP_RETURN"}, {"step1", "exec:OP_1 OP_2 OP_EQUALVERIFY"}, {"step1", "exec:OP_1", "exec:0000000080 OP_1ADD", "exec:OP_2"}};
+    std::vector<std::vector<std::string>> lists = {{"OP_RETURN"}, {"OP_0", "OP_VERIFY"}, {"OP_1", "OP_2", "OP_EQUALVERIFY"}, {"OP_ENDIF"}, {"OP_RESERVED"}, {"0000000080", "OP_1ADD"}, {"OP_1", "0000000080", "OP_ADD"}, {"OP_2DROP", "OP_2DROP", "OP_2DROP", "OP_2DROP", "OP_DROP"}};
+    for (auto sv : {ref::SigVer::BASE, ref::SigVer::WITNESS_V0}) for (uint32_t fl : {0u, ref::F_STANDARD & ~ref::F_CLEANSTACK}) {
+        Spec sp; sp.sv = sv; sp.flags = fl; sp.script = ref::unhex("510500000000809351");   // OP_1 <0000000080> OP_ADD OP_1: the third step throws
+        std::vector<std::string> base(lists.size());
+        for (size_t pi = 0; pi < preludes.size(); pi++) for (size_t li = 0; li < lists.size(); li++) {
+            Sess S; if (!S.open(sp)) return;
+            for (auto& p : preludes[pi]) {
+                if (p == "step3") { S.s.inst.step(); S.s.inst.step(); S.s.inst.step(); }
+                else if (p == "step1") S.s.inst.step();
+                else { std::vector<std::string> t; std::string cur; for (char ch : p.substr(5)) { if (ch == ' ') { t.push_back(cur); cur.clear(); } else cur += ch; } t.push_back(cur); bool ok; eval_capturing_stderr(S.s.inst, t, tf, ok); }
+            }
+            bool ok; std::string msg = eval_capturing_stderr(S.s.inst, lists[li], tf, ok);
+            st.evals++;
+            if (pi == 0) { base[li] = msg; continue; }
+            std::string ops; for (auto& t : lists[li]) ops += t + " ";
+            std::string pre; for (auto& t : preludes[pi]) pre += t + "; ";
+            J rj = JObj().put("engine", "mc_hist").put("mode", "c16-message").put("prelude", pre).put("ops", ops).j();
+            // the last list needs more stack than some preludes leave: its message may differ with the stack, skip it unless the stack-independent ones
+            if (li + 1 == lists.size()) continue;
+            if (msg != base[li]) V.add("exec-message-depends-on-history:" + std::string(impl::sv_name(sv)) + ";ops=" + ops, "exec " + ops + "after [" + pre + "] prints " + msg.substr(0, 120) + " ; in a fresh session it prints " + base[li].substr(0, 120), rj);
+        }
+    }
+}
+
 static std::vector<Spec> c04_specs(const std::string& tier) {
     std::vector<Spec> out;
     // (i) every script of <= maxlen ops over the reduced alphabet, for three sigversions under NONE
@@ -412,6 +454,7 @@ int main(int argc, char** argv) {
         },
         [&](size_t i, int stt, const std::string& nt) { V.add("crash:" + crash_desc(stt), "worker died (" + crash_desc(stt) + ") in session " + spec_str(specs[i]), J::raw(nt.empty() ? "{}" : nt)); },
         [&](const std::string& l) { if (l.empty()) return; if (l[0] == 'V') V.merge_line(l); else if (l[0] == 'M') { if (samples.size() < 10) samples.push_back(l.substr(2)); } else if (l[0] == 'T') S.merge_line(l); });
+    if (mode == "c16") check_c16_messages(tmp, V, S);
     rm_rf(tmp);
     JObj res;
     res.put("engine", "mc_hist").put("mode", mode).put("tier", tier).put("specs", specs.size()).put("L", L).put("exec_tokens", toks.size()).put("exec_maxlen", maxlen);
